@@ -27,6 +27,7 @@ from lib import repo, tla
 TAU = 0.05            # px: a witness pixel must sit at least this far inside the image (edge pixels are boundary-ambiguous)
 MIN_TILE_PX = 64.0   # the footprint monitor covers levels at which a tile still spans this many image pixels (tile px >= 1/4 image px)
 TWOPI = 2 * math.pi
+POLE_MIN_TILE_PX = 4.0   # around an ENCLOSED pole the bound comes from a 2-D grid of <= 1.4 px spacing (short by < 1 px): tiles of >= 4 px are in the domain there
 
 # ------------------------------------------------------------------------------------------------------------
 # geometry helpers of the harness (regions and hulls; never used as the oracle of a verdict, only to decide
@@ -553,6 +554,16 @@ def footprint_task(d):
         near = (np.abs(fp.pts[:, 0] - fp.pts[k, 0]) + np.abs(fp.pts[:, 1] - fp.pts[k, 1]) <= 10.0) & (fp.expo > 0)
         e0, ew = min_arc(fp.lon[near])
         scan(fp.n_dom, (float(fp.lat[near].min()), float(fp.lat[near].max()), e0, ew), 100, 0.0)
+    # (2b) a footprint that CONTAINS a pole: the latitude bound is found by a 2-D refinement around the coarse extreme; all
+    #      tiles in a cap around the pole (two coarse cells wide) down to tiles of POLE_MIN_TILE_PX image pixels
+    if d.get("klass") == "poleinside":
+        n_pole = int(max(1, min(13, math.floor(math.log2((math.pi / 2) / (POLE_MIN_TILE_PX * fp.pix))) + 1)))
+        if n_pole > fp.n_dom:
+            cells = 2.0 * math.sqrt(2.0) * max(fp.nx, fp.ny) / 31.0 + 8.0
+            cap = min(cells * fp.pix, math.radians(20))
+            region = (math.pi / 2 - cap, math.pi / 2, 0.0, TWOPI) if d["dec"] > 0 else (-math.pi / 2, -math.pi / 2 + cap, 0.0, TWOPI)
+            res["n_pole"] = n_pole
+            scan(n_pole, region, 200, 0.0)
     seen = set()
     for prio, t, first in sorted(cand, key=lambda c: -c[0]):
         p = tuple(t.pos)
@@ -957,6 +968,49 @@ def chunk_sampler_task(d):
     return res
 
 
+def chunk_layer_float_task(d):
+    """As chunk_layer_task for a float32 map (values incl. +-inf, +-0.0, extremes, NaN) and a pyramid whose tiles are stored
+    as d["fmt"] (fits: tiles come back big-endian; npy): every pass after the first updates tiles that already exist."""
+    import numpy as np
+    from toasty import toast
+    from toasty.pyramid import PyramidIO
+    from toasty.samplers import ChunkedPlateCarreeSampler, plate_carree_planet_sampler
+    res = {"id": d["id"], "viol": [], "mut": [], "tiles": 0, "pixels": 0, "filter_calls": 0}
+    W, H, specs, fmt = d["W"], d["H"], d["specs"], d["fmt"]
+    img = FakeChunked(W, H, specs, "f32")
+    cs = coordsys_of(d["coordsys"])
+    base = tempfile.mkdtemp(prefix="cf-", dir=d["scratch"])
+    pa = PyramidIO(os.path.join(base, "whole"), default_format=fmt)
+    pb = PyramidIO(os.path.join(base, "chunks"), default_format=fmt)
+    toast.sample_layer(pa, plate_carree_planet_sampler(img._data), d["depth"], coordsys=cs, format=fmt, parallel=1)
+    chunker = ChunkedPlateCarreeSampler(img, planetary=True)
+    order = list(range(chunker.n_chunks))
+    if d.get("reverse"):
+        order.reverse()
+    for ich in order:
+        g = Guard(chunker.filter(ich))
+        filtered_layer(d.get("route", "direct"), pb, g, chunker.sampler(ich), d["depth"], d["coordsys"])
+        res["filter_calls"] += len(g.verdict)
+        res["mut"].extend(g.mutated[:1])
+    for pos in _level_positions(d["depth"]):
+        ia = pa.read_image(pos, format=fmt)
+        ib = pb.read_image(pos, format=fmt)
+        res["tiles"] += 1
+        a = np.asarray(ia.asarray(), dtype=np.float32)
+        res["pixels"] += a.size
+        if ib is None:
+            bad = ~np.isnan(a)
+            b = None
+        else:
+            b = np.asarray(ib.asarray(), dtype=np.float32)
+            bad = ~same_bits(a, b)
+        if bad.any() and len(res["viol"]) < 3:
+            iy, ix = np.argwhere(bad)[0]
+            res["viol"].append({"tile": tuple(pos), "pixels": int(bad.sum()), "first": [int(iy), int(ix)], "whole_map": float(a[iy, ix]),
+                                "chunked": None if b is None else float(b[iy, ix])})
+    return res
+
+
 def _dispatch(task):
     kind, arg = task
     try:
@@ -974,6 +1028,8 @@ def _dispatch(task):
             return kind, chunk_edge_task(arg)
         if kind == "csamp":
             return kind, chunk_sampler_task(arg)
+        if kind == "clayerf":
+            return kind, chunk_layer_float_task(arg)
     except Exception as e:  # noqa
         import traceback
         tb = traceback.extract_tb(e.__traceback__)
@@ -1091,6 +1147,11 @@ def gen_footprints(rng, quick):
             add(rng.choice([L, 50, 120]), L, rng.choice(["generic", "nearpole"]))
     for nx, ny in ((48, 64), (100, 60), (257, 257), (64, 600)):
         add(nx, ny, "poleinside")
+    # ... and with the pole's pixel position at a chosen fraction of a coarse cell (32-point grid) beyond a node, per axis
+    for (nx, ny), (fx, fy) in (((400, 400), (0.85, 0.85)), ((257, 300), (0.15, 0.85)), ((600, 420), (0.5, 0.2)), ((320, 257), (0.9, 0.55))):
+        add(nx, ny, "poleinside")
+        ix, iy = rng.randint(8, 22), rng.randint(8, 22)
+        out[-1]["crpix"] = [0.5 + (ix + fx) * nx / 31.0, 0.5 + (iy + fy) * ny / 31.0]
     if not quick:
         for nx in range(1, 65):
             for ny in range(1, 65):
@@ -1437,6 +1498,14 @@ def _run(ctx, pool, scratch, quick, rng):
     for cf in sorted(set(sm[0] for sm in sampled)):
         for csname in ("planetary", "astronomical"):
             pending.append(pool.apply_async(_dispatch, (("cedge", {"W": cf[0], "H": cf[1], "specs": [tuple(s) for s in crecs[cf]["specs"]], "coordsys": csname}),)))
+    # the same chunk-by-chunk runs with a float map and tiles stored as FITS / npy (multi-pass updates of existing tiles)
+    fl_cases = [((24, 11, 9, 4), 2, "planetary", False, "builder", "fits"), ((9, 5, 4, 2), 1, "astronomical", True, "direct", "npy")]
+    if not quick:
+        fl_cases += [((16, 8, 14, 8), 3, "astronomical", False, "direct", "fits"), ((37, 19, 10, 7), 2, "planetary", True, "builder-coordsys", "fits"),
+                     ((21, 11, 8, 4), 3, "planetary", False, "direct", "npy")]
+    for k, (cf, depth, csname, rev, route, fmt) in enumerate(fl_cases):
+        pending.append(pool.apply_async(_dispatch, (("clayerf", {"id": k, "W": cf[0], "H": cf[1], "specs": [tuple(s) for s in crecs[cf]["specs"]], "depth": depth,
+                                                                "coordsys": csname, "reverse": rev, "route": route, "fmt": fmt, "scratch": scratch}),)))
     uniq_chunk_regions = [r for r in chunk_regions if not ((r[1], r[2], r[4], len(r[3])) in seen_cf or seen_cf.add((r[1], r[2], r[4], len(r[3]))))]
     regions = boxes + uniq_chunk_regions
     real_depth = {"astronomical": 4, "planetary": 3 if quick else 4}
@@ -1481,7 +1550,7 @@ def _run(ctx, pool, scratch, quick, rng):
             crashes.append(r)
             continue
         if kind == "raised":        # the code under test raised while building / applying a filter or sampling with it
-            _violation(ctx, "C07:%s:raises" % {"real": "box-or-chunk-filter", "foot": "wcs-filter", "wlayer": "sample-layer-filtered", "clayer": "chunked-sampling", "ftiler": "fits-tiler", "cedge": "box-or-chunk-filter", "csamp": "chunked-sampling"}[r["kind"]],
+            _violation(ctx, "C07:%s:raises" % {"real": "box-or-chunk-filter", "foot": "wcs-filter", "wlayer": "sample-layer-filtered", "clayer": "chunked-sampling", "ftiler": "fits-tiler", "cedge": "box-or-chunk-filter", "csamp": "chunked-sampling", "clayerf": "chunked-sampling"}[r["kind"]],
                           "toasty raised %s in %s while a filter was built / applied / sampled through (%s task)" % (r["error"], r["where"], r["kind"]), r)
             continue
         for m in r.get("mut", []):
@@ -1509,6 +1578,14 @@ def _run(ctx, pool, scratch, quick, rng):
             for v in r["viol"]:
                 _violation(ctx, "C07:sample-layer-filtered:differs", "filtered sampling (route %s, %s) with the image's own filter differs from sample_layer in tile %s: %d pixels, e.g. %s unfiltered %r filtered %r (filter verdicts on the path %s)"
                               % (wl_cases[r["id"]].get("route", "direct"), wl_cases[r["id"]]["coordsys"], v["tile"], v["pixels"], v["first"], v["unfiltered"], v["filtered"], v["filter_verdicts_on_path"]), {"case": {k: x for k, x in wl_cases[r["id"]].items() if k != "scratch"}, "detail": v})
+        elif kind == "clayerf":
+            ctx.count(r["tiles"] + r["filter_calls"])
+            ctx.add_note("chunked_float_pixels_compared", r["pixels"])
+            ctx.distinct(("clayerf", r["id"]))
+            cfc = fl_cases[r["id"]]
+            for v in r["viol"]:
+                _violation(ctx, "C07:chunked-sampling:differs", "float map %s sampled chunk by chunk (%s, route %s, %s tiles) leaves tile %s different from whole-map sampling in %d pixels: pixel %s whole-map %r chunked %r"
+                           % (cfc[0], cfc[2], cfc[4], cfc[5], v["tile"], v["pixels"], v["first"], v["whole_map"], v["chunked"]), {"config": cfc, "detail": v})
         elif kind == "csamp":
             ctx.count(r["calls"])
             ctx.add_note("chunk_sampler_level_pixels_compared", r["pixels"])
